@@ -207,6 +207,9 @@ fn generate_item_parser_call(
                 }
                 quote! { {
                     let arrayitems = #item_ident.get_array()?;
+                    if arrayitems.len() < #dim {
+                        return Err("structural mismatch: the array has fewer elements than the specification declares");
+                    }
                     [ #(#arrayelements),* ]
                 }}
                 //quote! {foo}
@@ -243,6 +246,9 @@ fn generate_item_location(item_ident: &TokenStream, basetype: &BaseType) -> Toke
                 }
                 quote! { {
                     let arrayitems = #item_ident.get_array()?;
+                    if arrayitems.len() < #dim {
+                        return Err("structural mismatch: the array has fewer elements than the specification declares");
+                    }
                     [ #(#arraylocations),* ]
                 }}
             }
